@@ -66,6 +66,18 @@ DgInView(m, v) == m = "halfplane" =>
 DgInWindow(m, v, win) == m = "halfplane" =>
                            LET c == DgCoord(m, v) IN c[3] > 0 /\ win[1] * c[3] <= c[1] /\ c[1] <= win[2] * c[3] /\ c[2] <= win[3] * c[3]
 
+\* the same window widened on the left and on the right by 9% of its width: the drawing code treats an end point as
+\* "the point at infinity" only beyond a margin of 10% (OFFSCREEN_FACTOR) outside the window; an end point inside the
+\* margin is an ordinary point the outline passes through
+DgInMargin(m, v, win) == m = "halfplane" =>
+                          LET c == DgCoord(m, v)
+                              w == win[2] - win[1]
+                          IN /\ c[3] > 0 /\ c[2] <= win[3] * c[3]
+                             /\ (100 * win[1] - 9 * w) * c[3] <= 100 * c[1] /\ 100 * c[1] <= (100 * win[2] + 9 * w) * c[3]
+\* what a drawing constructed without arguments is: HyperbolicDrawing() is the Poincare disc with the identity
+\* transformation (and the default window); ProjectiveDrawing() is chart 0 with the identity transformation
+DgDefaultModel == "poincare"
+
 \* Minkowski normal of span(x, y), x # y
 DgNormal(x, y) == Prim(<<0 - (x[2] * y[3] - x[3] * y[2]), x[3] * y[1] - x[1] * y[3], x[1] * y[2] - x[2] * y[1]>>)
 
